@@ -140,7 +140,9 @@ func (c *Class) Evaluation(
 
 	// include ObjectClass
 	if ctx.IsDefineRound() {
-		classNode := base.ClassNode{Frame: ctx.GetFrame(), Class: class}
+		// the class lives in nextFrame (M for class K inside module M), and
+		// so do its superclass and include edges
+		classNode := base.ClassNode{Frame: nextFrame, Class: class}
 		objectClassNode := base.ClassNode{Frame: "Builtin", Class: ""}
 
 		base.ClassInheritanceMap[classNode] =
